@@ -1,7 +1,7 @@
 #!/usr/bin/env python3
 """Seeded-change driver.
 
-  mutant.py adopt <agent-worktree> <id> <property>   verify a sub-agent's change in a fresh scratch worktree
+  mutant.py adopt <agent-worktree> <id> <property> [demo-dir]   verify a sub-agent's change in a fresh scratch worktree
                                                      (builds, suite unchanged, demo fails with / passes without) and,
                                                      if confirmed, store it as /verif/seeded/<id>/
   mutant.py run <id> [PROP ...]                      apply /verif/seeded/<id>/patch.diff to a scratch worktree and run the
@@ -36,20 +36,27 @@ def drop(d):
 def suite(d):
     """Returns the set of failing packages of go test ./... (excluding zz_demo)."""
     rc, out = sh("go list ./... | grep -v zz_demo | xargs go test -vet=off -count=1 2>&1 | grep -E '^(FAIL|ok|---)' | grep -E '^FAIL' | awk '{print $2}' | sort -u", cwd=d)
-    return set(x for x in out.split() if x and x != "FAIL")
+    failing = set(x for x in out.split() if x and x != "FAIL")
+    # fixed-port tests (grpc/middleware/xray) collide when several suites run at once: retry alone before believing a failure
+    for pkg in sorted(failing):
+        if pkg.startswith("goa.design/") and pkg != "goa.design/goa/v3/grpc/codegen":
+            rc, _ = sh(["go", "test", "-vet=off", "-count=1", pkg], cwd=d)
+            if rc == 0:
+                failing.discard(pkg)
+    return failing
 
 
-def adopt(src, mid, prop):
-    demo = os.path.join(src, "zz_demo")
+def adopt(src, mid, prop, demo_name="zz_demo"):
+    demo = os.path.join(src, demo_name)
     patch = os.path.join(demo, "patch.diff")
     run = open(os.path.join(demo, "RUN.txt")).read().strip().splitlines()
     cmd = [l for l in run if l.strip() and not l.startswith("#")][-1]
     d = worktree(mid)
     log = {"id": mid, "property": prop, "source_worktree": src, "steps": []}
     try:
-        shutil.copytree(demo, os.path.join(d, "zz_demo"), ignore=shutil.ignore_patterns("patch.diff"))
+        shutil.copytree(demo, os.path.join(d, demo_name), ignore=shutil.ignore_patterns("patch.diff"))
         # demonstrations written by sub-agents mention their own worktree in scripts: point them at this one
-        for dp, _, fs in os.walk(os.path.join(d, "zz_demo")):
+        for dp, _, fs in os.walk(os.path.join(d, demo_name)):
             for f in fs:
                 fp = os.path.join(dp, f)
                 try:
@@ -119,7 +126,7 @@ def run(mid, props):
 
 if __name__ == "__main__":
     if sys.argv[1] == "adopt":
-        l = adopt(sys.argv[2], sys.argv[3], sys.argv[4])
+        l = adopt(sys.argv[2], sys.argv[3], sys.argv[4], sys.argv[5] if len(sys.argv) > 5 else "zz_demo")
         print(json.dumps({k: v for k, v in l.items() if k != "steps"}, indent=1))
         for s in l["steps"]:
             print("  ", s.get("tree"), s.get("cmd", "")[:100], "exit", s.get("exit"), s.get("failing_packages", ""))
